@@ -383,7 +383,7 @@ def cases(tier, rng):
         kind = rng.choice(["pileup_hist", "pileup_sum", "mask_sum", "under", "under_mean", "merged", "pileup_data",
                            "under_stranded", "under_stranded", "under_stranded_mean",
                            "track_ufunc_sum", "under_max", "merge_map", "bedgraph_sum", "extended", "track_bool_index",
-                           "under_sum", "under_rowsum", "under_colmean", "under_colmean"])
+                           "under_sum", "under_rowsum", "under_colmean", "under_colmean", "uncovered"])
         if kind in ("under", "under_mean", "under_stranded", "under_max", "under_sum", "under_rowsum", "under_colmean") and not peaks:
             peaks = [[0, 0, sizes[0]]]
         if kind == "under_stranded_mean":            # windows of one common size, as `track[windows].mean(axis=0)` needs
@@ -407,9 +407,38 @@ def cases(tier, rng):
                     pos = e
         if kind == "extended":                # stranded entries: 1 = '+', 0 = '-'
             rows = [r + [rng.choice([1, 0])] for r in rows]
+        extra = {}
+        if kind in IGNORABLE and rng.random() < 0.4:
+            # contigs the genome lists but its filter function ignores (names with '_'), with non-zero sizes, anywhere in the
+            # genome order; some entries lie on them (dropped by both modes)
+            ign = [[rng.randrange(0, nchrom + 1), rng.randrange(1, 8)] for _ in range(rng.randrange(1, 3))]
+            extra["ignored"] = ign
+            for k, (slot, sz) in enumerate(ign):
+                if rng.random() < 0.5:
+                    s0 = rng.randrange(0, sz)
+                    rows.append([100 + k, s0, rng.randrange(s0 + 1, sz + 1)])
+            order = _genome_order(nchrom, ign)
+            rows.sort(key=lambda r: (order.index(r[0]), r[1], r[2]))
         mask = rng.getrandbits(len(rows) - 1) if len(rows) > 1 else 0
-        yield {"op": "pipeline", "kind": kind, "sizes": sizes, "chunks": _cut(rows, mask), "peaks": sorted(peaks),
-               "bins": rng.randrange(1, 5)}
+        yield dict({"op": "pipeline", "kind": kind, "sizes": sizes, "chunks": _cut(rows, mask), "peaks": sorted(peaks),
+                    "bins": rng.randrange(1, 5)}, **extra)
+
+
+IGNORABLE = {"pileup_hist", "pileup_sum", "mask_sum", "pileup_data", "under", "track_ufunc_sum", "under_max", "uncovered"}
+
+
+def _genome_order(nchrom, ign):
+    """chromosome indices in the order of the genome dict: ignored contig k (index 100+k) sits before included index slot"""
+    order = []
+    for ci in range(nchrom + 1):
+        order += [100 + k for k, (slot, _) in enumerate(ign) if slot == ci]
+        if ci < nchrom:
+            order.append(ci)
+    return order
+
+
+def _chrom_name(ci):
+    return "chr%d" % (ci + 1) if ci < 100 else "chrUn_%d" % (ci - 100)
 
 
 def nontrivial(c):
@@ -584,7 +613,7 @@ def _stranded_table(m, rows):
 
 
 def _interval_table(m, rows):
-    return m["Interval"](["chr%d" % (r[0] + 1) for r in rows], [r[1] for r in rows], [r[2] for r in rows])
+    return m["Interval"]([_chrom_name(r[0]) for r in rows], [r[1] for r in rows], [r[2] for r in rows])
 
 
 def _chroms(col):
@@ -598,8 +627,13 @@ def _chroms(col):
 
 def _pipeline(m, c, streamed):
     bnp, cg = m["bnp"], m["cg"]
-    sizes = {"chr%d" % (i + 1): s for i, s in enumerate(c["sizes"])}
-    genome = bnp.Genome.from_dict(sizes)
+    if c.get("ignored"):
+        from bionumpy.genomic_data.genome_context import ignore_underscores
+        sz = {ci: (c["sizes"][ci] if ci < 100 else c["ignored"][ci - 100][1]) for ci in _genome_order(len(c["sizes"]), c["ignored"])}
+        genome = bnp.Genome.from_dict({_chrom_name(ci): v for ci, v in sz.items()}, filter_function=ignore_underscores)
+    else:
+        sizes = {"chr%d" % (i + 1): s for i, s in enumerate(c["sizes"])}
+        genome = bnp.Genome.from_dict(sizes)
     rows = [r for ch in c["chunks"] for r in ch]
     kind = c["kind"]
     if kind == "bedgraph_sum":
@@ -650,6 +684,8 @@ def _pipeline(m, c, streamed):
             return r_
     if kind == "track_ufunc_sum":
         return int(fin((gi.get_pileup() * 2 + 1).sum()))
+    if kind == "uncovered":                  # positions no entry covers: sensitive to the length of the genome-wide array
+        return int(fin(np.sum(gi.get_pileup() == 0)))
     if kind == "track_bool_index":
         p_ = gi.get_pileup()
         return [int(x) for x in np.asarray(fin(p_[p_ > 1])).ravel()]
@@ -894,7 +930,7 @@ def _hist(data, edges):
 
 def _dense_pileup(c):
     dense = [[0] * s for s in c["sizes"]]
-    for ci, s, e in [r[:3] for r in _flat(c["chunks"])]:
+    for ci, s, e in [r[:3] for r in _flat(c["chunks"]) if r[0] < 100]:      # entries on ignored contigs do not exist
         for p in range(s, e):
             dense[ci][p] += 1
     return dense
@@ -1039,6 +1075,8 @@ def oracle(c):
         kind = c["kind"]
         if kind == "track_ufunc_sum":
             return sum(2 * v + 1 for v in _flat(dense))
+        if kind == "uncovered":
+            return sum(1 for v in _flat(dense) if v == 0)
         if kind == "track_bool_index":
             return [v for v in _flat(dense) if v > 1]
         if kind == "under_max":
@@ -1185,7 +1223,8 @@ def model_request(c):
     if c["op"] == "pipeline":
         if c["kind"] not in MODEL_PIPELINES:
             return None      # values under intervals / merged: implementation vs dense oracle only
-        return {"op": "pipeline", "kind": c["kind"], "sizes": c["sizes"], "chunks": c["chunks"], "bins": c["bins"],
+        chunks = [[r for r in ch if r[0] < 100] for ch in c["chunks"]]      # the included genome is what the model describes
+        return {"op": "pipeline", "kind": c["kind"], "sizes": c["sizes"], "chunks": chunks, "bins": c["bins"],
                 "peaks": [p[:3] + [1 if p[3] == 1 else 0] if len(p) == 4 else p for p in c["peaks"]]}
     if c["op"] == "groupby":
         return {"op": "groupby", "fast": c["fast"], "chunks": c["chunks"]}
